@@ -475,7 +475,7 @@ class Interp:
 
     def constant(self, k):
         if "fn" in k:
-            return ("fnp", k["fn"], k.get("fn_key"))
+            return ("fnp", k["fn"], k.get("fn_resolved_key") or k.get("fn_key"))
         v = k.get("v")
         if v is None and k.get("def") and k["def"] in self.F.const_by_path:
             v = self.F.const_by_path[k["def"]][0].get("value")
@@ -1791,7 +1791,7 @@ class Interp:
         except Exception:
             return "?"
 
-    def run_root(self, f, values):
+    def run_root(self, f, values, colls=False):
         """values: list of abstract values, one per parameter; parameters of reference type receive a reference to a
         root-frame slot holding the value.  Returns (ret, root frame after the call)."""
         fv = view(self.F, f)
@@ -1799,6 +1799,18 @@ class Interp:
         args = []
         for i, v in enumerate(values):
             ty = fv.locals[i + 1]["ty"]
+            if v[0] in ("__coll_iter", "__coll_slice"):
+                # an abstract collection: elements live in a vector summary in the root frame
+                elem, nhi = v[1], v[2]
+                byref = True
+                st.frames[0][(1000 + i)] = ("vec", elem, 0, nhi)
+                r = ("ref", 0, (1000 + i), ())
+                if v[0] == "__coll_slice":
+                    args.append(("sl", 0, (1000 + i), (), 0, 0, 0, nhi))
+                else:
+                    # iterator yielding references (Borrow<T>) to the elements
+                    args.append(("it", "slice", r, I(0), I(0, nhi), 0))
+                continue
             if ty.startswith("&") and v[0] not in ("ref", "sl", "cref"):
                 st.frames[0][i] = v
                 r = ("ref", 0, i, ())
@@ -1894,7 +1906,7 @@ class Interp:
         st.frames[d][l] = self.write_path(cur, path, generalise(old))
 
     def deref_val(self, st, v):
-        if v[0] == "ref":
+        if v[0] in ("ref", "sl"):
             return self.read_path(st.frames[v[1]].get(v[2], TOP), v[3])
         if v[0] == "cref":
             return v[1]
@@ -1919,7 +1931,7 @@ class Interp:
         """execute a local callee; memoised on the abstract arguments (with pointee values for references)"""
         tr = __import__("os").environ.get("ABSINT_TRACE")
         if tr and re.search(tr, g["path"]):
-            print("TRACE call", g["path"][-60:], "tyenv", tyenv, "args", [show_val(self.deref_val(st, a), 3)[:120] for a in args])
+            print("TRACE call", g["path"][-60:], "tyenv", tyenv, "args", [show_val(self.deref_val(st, a), 3)[:120] for a in args], "RAW", [a[:4] if a[0] in ("ref", "sl") else a[0] for a in args])
         key_args = []
         refs = []
         for a in args:
@@ -2030,6 +2042,8 @@ def show_val(v, depth=2):
         return "[%s, %s]" % (fmt(v[1]), fmt(v[2]))
     if v[0] in ("arr", "st") and depth > 0:
         return v[0] + "(" + ", ".join(show_val(x, depth - 1) for x in v[1][:10]) + ")"
+    if v[0] == "vec" and depth > 0:
+        return "vec<%s; %s..%s>" % (show_val(v[1], depth - 1), v[2], v[3])
     return v[0]
 
 
